@@ -259,12 +259,13 @@ fn check_git(c: &GitCase, cx: &mut Cx) -> Res {
     cx.label_if(c.dirty_override != 0, "dirty-tree-switched-off-by-flag");
     let spec = proc::Spec { args: args.clone(), cwd: Some("/".into()), ..Default::default() };
     compare_all(&spec, "/usr", clocked, cx)?;
-    if c.dirty_override != 0 {
-        // the same command a good second later: nothing here may come from the wall clock
+    {
+        // the same command a good second later: nothing here may come from the wall clock (the
+        // work tree is clean, or its dirty state is switched off by a flag)
         let first = proc::run(&spec);
         std::thread::sleep(std::time::Duration::from_millis(1100));
         let later = proc::run(&spec);
-        ensure!(first.code == later.code && first.stdout == later.stdout, "the same command 1.1 s later prints something else (work tree dirty, dirty state switched off by a flag): {:?} vs {:?} (args {args:?})", first.out_str(), later.out_str());
+        ensure!(first.code == later.code && first.stdout == later.stdout, "the same command 1.1 s later prints something else (clock-free state: {}): {:?} vs {:?} (args {args:?}; history: {})", if c.dirty_override != 0 { "dirty tree switched off by a flag" } else { "clean tree" }, first.out_str(), later.out_str(), repo.log.join("; "));
     }
     // without -C from inside the repository: same output as with -C from elsewhere
     let t0 = now();
